@@ -295,10 +295,17 @@ def gen_map(rng):
         how = rng.choice(['kw', 'rename', 'dict', 'prefix', 'suffix', 'upper'])
         case['how'] = how
         if how in ('kw', 'rename', 'dict'):
-            olds = rng.sample(ks, rng.randint(0, min(2, len(ks)))) + (rng.sample(absent, 1) if rng.random() < 0.3 else [])
-            news = ['n%d' % i for i in range(len(olds))]
-            case['map'] = {o: n for o, n in zip(olds, news)}
-            case['map'] = {o: n for o, n in case['map'].items()}
+            if len(ks) >= 2 and rng.random() < 0.35:
+                # a permutation of existing names (swap / rotation) or a shift onto a name that is itself renamed away
+                sel = rng.sample(ks, rng.randint(2, min(3, len(ks))))
+                if rng.random() < 0.5:
+                    case['map'] = {o: n for o, n in zip(sel, sel[1:] + sel[:1])}
+                else:
+                    case['map'] = {o: n for o, n in zip(sel, sel[1:] + ['n9'])}
+            else:
+                olds = rng.sample(ks, rng.randint(0, min(2, len(ks)))) + (rng.sample(absent, 1) if rng.random() < 0.3 else [])
+                news = ['n%d' % i for i in range(len(olds))]
+                case['map'] = {o: n for o, n in zip(olds, news)}
         elif how == 'prefix':
             case['arg'] = 'p_'; case['map'] = {k: 'p_' + k for k in ks}
         elif how == 'suffix':
